@@ -31,5 +31,10 @@ declare -A CH=(
 )
 for id in "$@"; do
   echo "=== $id"
-  /verif/tools/try_seeded.sh $id ${CH[$id]}
+  checks=${CH[$id]:-}
+  if [ -z "$checks" ]; then
+    # default: the check of the property the change was written against
+    checks=$(python3 -c "import json; print(json.load(open('/verif/seeded/$id/meta.json'))['property'])")
+  fi
+  /verif/tools/try_seeded.sh $id $checks
 done
